@@ -5,6 +5,7 @@
 #include <algorithm>
 #include <cctype>
 #include <iterator>
+#include <limits>
 #include <vector>
 
 #include "../Exceptions.h"
@@ -219,7 +220,22 @@ int toInt(const std::string& s, char scientificNotation)
 {
   if (!isDecimalInteger(s, scientificNotation))
     throw Exception("TextTools::toInt(). Invalid number specification: " + s);
-  return fromString<int>(s);
+  std::string::size_type pos = s.find(scientificNotation);
+  if (pos == std::string::npos)
+    return fromString<int>(s);
+  // Apply the exponent (the stream extraction stops at the exponent character):
+  long long m = fromString<long long>(s.substr(0, pos));
+  int e = fromString<int>(s.substr(pos + 1));
+  const long long iMax = std::numeric_limits<int>::max(), iMin = std::numeric_limits<int>::min();
+  for (int k = 0; k < e && m != 0 && m <= iMax && m >= iMin; ++k)
+  {
+    m *= 10;
+  }
+  if (m > iMax)
+    m = iMax; // saturates like the stream extraction does
+  if (m < iMin)
+    m = iMin;
+  return static_cast<int>(m);
 }
 
 /******************************************************************************/
